@@ -134,7 +134,12 @@ def signDown (cvar : Var) : Bool :=
   | none => guessDown cvar.data
 
 /-- "Reverse the polarity": the coordinate and, if its `bounds` attribute names an
-existing variable, that variable are multiplied by −1 -/
+existing variable, that variable are multiplied by −1.
+The code has two branches for the coordinate — `assign_coords` + re-attaching `attrs` /
+`encoding` when it is a dimension coordinate (`name == dimension`), `assign` with a
+`(dims, values, attrs, encoding)` tuple otherwise.  Both replace the values and keep
+attributes, encoding and coordinate status, which is what `modify name negVar` does; the
+correspondence runs dimension coordinates, auxiliary coordinates and plain variables. -/
 def flipSign (new : Dataset) (name : String) : Dataset :=
   let new2 := new.modify name negVar
   match (new2.find name).bind (·.bounds) with
